@@ -7,6 +7,7 @@ random + boundary values up to 300 bits, and a sweep of the no-length constructo
 from vlib.common import fp, exc_site
 
 LEVEL = "exploration"
+INSITU_OWNED = ("insitu:bitset",)
 SHARD_TIMEOUT = {"quick": 200, "thorough": 1200}
 
 
